@@ -341,10 +341,74 @@ fn scope_merge(parent: &mut State<TagP>, child: State<TagP>) -> ExecResult<()> {
     Ok(())
 }
 
+thread_local! {
+    /// which builder entry points `build_seq` uses (all documented as equivalent ways of adding the same components)
+    pub static BUILD_STYLE: std::cell::Cell<u8> = const { std::cell::Cell::new(0) };
+}
+pub const BUILD_STYLES: [&str; 6] = ["do_", "do_if_some_+assert", "do_many_(Vec)", "do_many_(filtered iterator)", "do_many_(chained iterators)", "do_(head)+debug(effect)"];
+
+/// A leaf without its execute-time effect (which a following `debug` step performs).
+#[derive(Clone, Serialize)]
+pub struct ProbeHead {
+    pub id: u16,
+    pub effect: Effect,
+}
+impl Component<TagP> for ProbeHead {
+    fn init(&self, p: &TagP, st: &mut State<TagP>) -> ExecResult<()> {
+        Probe { id: self.id, effect: self.effect }.init(p, st)
+    }
+    fn require(&self, p: &TagP, req: &StateReq<TagP>) -> ExecResult<()> {
+        Probe { id: self.id, effect: self.effect }.require(p, req)
+    }
+    fn execute(&self, _p: &TagP, st: &mut State<TagP>) -> ExecResult<()> {
+        record(2, self.id, false, st);
+        fault_point()
+    }
+}
+
+fn leaf_box(id: u16, e: Effect) -> Box<dyn Component<TagP>> {
+    Box::new(Probe { id, effect: e })
+}
+
 pub fn build_seq(mut b: ConfigurationBuilder<TagP>, t: &Tree) -> ConfigurationBuilder<TagP> {
-    for n in t {
+    let style = BUILD_STYLE.with(|c| c.get());
+    let mut i = 0;
+    while i < t.len() {
+        let n = &t[i];
+        i += 1;
         b = match n {
-            Node::Leaf(id, e) => b.do_(Box::new(Probe { id: *id, effect: *e })),
+            Node::Leaf(id, e) => match style {
+                1 => b.do_if_some_(None).do_if_some_(Some(leaf_box(*id, *e))).assert(|_| true),
+                2 | 3 | 4 => {
+                    // the maximal run of consecutive leaves as one group
+                    let mut run = vec![leaf_box(*id, *e)];
+                    while let Some(Node::Leaf(id2, e2)) = t.get(i) {
+                        run.push(leaf_box(*id2, *e2));
+                        i += 1;
+                    }
+                    match style {
+                        2 => b.do_many_(run),
+                        3 => b.do_many_(run.into_iter().filter(|_| true)),
+                        _ => {
+                            let tail = run.split_off(run.len() / 2);
+                            b.do_many_(run.into_iter().chain(tail.into_iter().map(Some).flatten()))
+                        }
+                    }
+                }
+                5 => {
+                    let (id, e) = (*id, *e);
+                    b.do_(Box::new(ProbeHead { id, effect: e })).debug(move |_p, st| match e {
+                        Effect::InsertAtExec => {
+                            st.insert(XS(50 + id as u8));
+                        }
+                        Effect::SetValue => {
+                            st.set_value::<XS>(100 + id as u8);
+                        }
+                        _ => {}
+                    })
+                }
+                _ => b.do_(leaf_box(*id, *e)),
+            },
             Node::While(id, body) => b.while_(Box::new(ScriptCond { id: *id }), |bb| build_seq(bb, body)),
             Node::If(id, body) => b.if_(Box::new(ScriptCond { id: *id }), |bb| build_seq(bb, body)),
             Node::IfElse(id, x, y) => b.if_else_(Box::new(ScriptCond { id: *id }), |bb| build_seq(bb, x), |bb| build_seq(bb, y)),
@@ -353,6 +417,13 @@ pub fn build_seq(mut b: ConfigurationBuilder<TagP>, t: &Tree) -> ConfigurationBu
         };
     }
     b
+}
+
+pub fn build_styled(t: &Tree, style: u8) -> Configuration<TagP> {
+    BUILD_STYLE.with(|c| c.set(style));
+    let c = build_seq(Configuration::builder(), t).build();
+    BUILD_STYLE.with(|c| c.set(0));
+    c
 }
 
 pub fn build(t: &Tree) -> Configuration<TagP> {
